@@ -18,7 +18,7 @@ NPROC = int(os.environ.get('VERIF_NPROC', str(min(16, os.cpu_count() or 4))))
 
 def _pool_init(instrument):
     os.environ['PYTHONHASHSEED'] = '0'
-    sys.setrecursionlimit(10000)
+    sys.setrecursionlimit(2500)      # instrumented frames are doubled by the call helper
     if instrument:
         from vf import instr
         instr.install()
@@ -157,7 +157,7 @@ def main(argv):
     for fid, vs in sorted(known_hits.items()):
         k = open_known[fid]
         print('KNOWN-FINDING: property=%s %s %s (e.g. %s)' % (
-            prop, fid, k.get('what', ''), json.dumps(vs[0]['input'])[:200]))
+            prop, fid, k.get('what', ''), (json.dumps(vs[0]['unit']) + ' ' + json.dumps(vs[0]['input']))[:240]))
     # open findings are announced even when this run's bound did not reach them
     for fid, k in sorted(open_known.items()):
         if fid not in known_hits:
